@@ -10,9 +10,12 @@ Definition pick (s k n : N) : N :=
   (((s + 1) * 2654435761 + (k + 7) * 40503 + (s * k) mod 65521) mod 4294967296 / 97) mod n.
 
 Definition name_prefixes : list text := [s2t "x"; s2t "lbl_"; s2t "Zq"; s2t "_t"; s2t "loop"].
+Definition upper_c (c : N) : N := if is_lower_a c then c - 32 else c.
+(* ids from 200 on are spelt like id - 200 but in upper case: a different name (names are case-sensitive) *)
 Definition name_of (s : N) (id : N) : text :=
   if id =? ID_CORESIZE then s2t "CORESIZE" else if id =? ID_MAXLENGTH then s2t "MAXLENGTH"
   else if id =? ID_MAXPROCESSES then s2t "MAXPROCESSES" else if id =? ID_MINDISTANCE then s2t "MINDISTANCE"
+  else if 200 <=? id then map upper_c (nth (N.to_nat (pick s 0 5)) name_prefixes (s2t "x") ++ dec_of_N (id - 200))
   else nth (N.to_nat (pick s 0 5)) name_prefixes (s2t "x") ++ dec_of_N id.
 
 Definition recase (s k : N) (t : text) : text :=
@@ -115,9 +118,11 @@ Definition render (s : N) (p : prog) : text :=
       | Some e => optgap s 1 ++ recase s 2 (s2t "ORG") ++ gap s 3 ++ render_expr s 4 e ++ trailer s 5
       | None => [] end)
   ++ render_items (items_size (pr_items p)) s 100 (pr_items p)
+  ++ render_labels s 18 (pr_end_labels p)
   ++ (match pr_end p with
       | Some e => optgap s 11 ++ recase s 12 (s2t "END") ++ gap s 13 ++ render_expr s 14 e ++ [10]
-      | None => if pick s 15 2 =? 0 then recase s 16 (s2t "END") ++ [10] else [] end)).
+      | None => if (pick s 15 2 =? 0) || negb (match pr_end_labels p with [] => true | _ => false end)
+                then recase s 16 (s2t "END") ++ [10] else [] end)).
 
 (* ---------- unrolling FOR blocks ---------- *)
 Fixpoint subst_counter (c : N) (i : Z) (e : nexpr) : nexpr :=
@@ -198,6 +203,6 @@ Fixpoint unroll (f : nat) (cf : mconf) (ev : env) (its : list item) : option (li
 
 Definition unroll_prog (cf : mconf) (fuel : nat) (p : prog) : option prog :=
   match unroll fuel cf [] (pr_items p) with
-  | Some its => Some (mkProg its (pr_org p) (pr_end p) (pr_name p) (pr_author p))
+  | Some its => Some (mkProg its (pr_org p) (pr_end p) (pr_name p) (pr_author p) (pr_end_labels p))
   | None => None
   end.
